@@ -38,6 +38,17 @@ def lists():
     L["M4"] = [(sparse.csr_matrix(np.eye(n("ba"))), marg("ba") + 1.0, 1.0, ["b", "a"]), (None, marg("c"), 1.0, "c")]
     L["M5"] = [(np.eye(n("ab"))[:2], marg("ab")[:2] + 0.5, 1.0, ("a", "b"))]     # no query spans the all-ones vector: total not estimable
     L["M0"] = []                                                                   # nothing measured at all
+    # a hand-assembled CSR identity on (a,b): column indices not sorted within rows and one coordinate given twice (0.5 + 0.5)
+    nab = n("ab")
+    rows_, cols_, vals_ = [], [], []
+    for r_ in range(nab):
+        if r_ == 0:
+            rows_ += [0, 0]; cols_ += [0, 0]; vals_ += [0.5, 0.5]
+        else:
+            rows_.append(r_); cols_.append(r_); vals_.append(1.0)
+    indptr_ = np.array([0, 2] + list(range(3, nab + 2)), dtype=np.int32)
+    raw = sparse.csr_matrix((np.array(vals_), np.array(cols_, dtype=np.int32), indptr_), shape=(nab, nab))
+    L["Mraw"] = [(raw, marg("ab") + 0.25, 1.0, ("a", "b")), m("bc", sigma=2.0)]
     # three chains over the same attributes, each with another middle attribute: an elimination order that is perfect for one
     # (its first attribute is a leaf) starts with the MIDDLE of another one and would create a larger clique there
     L["Cb"] = [m("ab"), m("bc", sigma=2.0)]
@@ -78,6 +89,8 @@ def snapshot_inputs(meas, zeros, options):
     def cp(m):
         Q, y, s, p = m
         Qc = None if Q is None else (Q.toarray().copy() if sparse.issparse(Q) else np.array(Q).copy())
+        if sparse.issparse(Q) and hasattr(Q, "indptr"):
+            Qc = (Qc, Q.data.copy(), Q.indices.copy(), Q.indptr.copy())
         return (Qc, np.array(y).copy(), s, copy.deepcopy(p))
     return [cp(m) for m in meas], copy.deepcopy(zeros), copy.deepcopy(options)
 
@@ -88,6 +101,11 @@ def inputs_changed(meas, zeros, options, snap):
         return "measurement list length changed"
     for (Q, y, s, p), (Qc, yc, sc, pc) in zip(meas, ms):
         Qn = None if Q is None else (Q.toarray() if sparse.issparse(Q) else np.asarray(Q))
+        if isinstance(Qc, tuple):
+            # a CSR query: also its stored arrays, bit for bit (the caller may index into them)
+            Qc, d0, i0, p0 = Qc
+            if not (sparse.issparse(Q) and hasattr(Q, "indptr") and np.array_equal(Q.data, d0) and np.array_equal(Q.indices, i0) and np.array_equal(Q.indptr, p0)):
+                return "the stored arrays (data / indices / indptr) of a caller's sparse query matrix were modified"
         if (Qn is None) != (Qc is None) or (Qn is not None and not np.array_equal(Qn, Qc)):
             return "a query matrix was modified"
         if not np.array_equal(np.asarray(y), yc) or s != sc or p != pc or type(p) is not type(pc):
